@@ -235,7 +235,7 @@ func TestC04(t *testing.T) {
 		names = append(names, k)
 	}
 	sort.Strings(names)
-	rec.SetExtra("n_constructors_in_table", len(ctorTable))
+	rec.SetExtra("constructors_in_table", len(ctorTable))
 	rec.SetExtra("constructors_exercised", len(names))
 	var missing []string
 	for _, e := range ctorTable {
